@@ -84,6 +84,21 @@ func (e *Extractor) clone() *Extractor {
 		warnings:     append([]Warning(nil), e.warnings...),
 		ocrClient:    e.ocrClient,
 	}
+	if e.ownsReader && e.filename != "" {
+		// The reader was opened by e from its file and will be closed by e (every
+		// terminal operation closes it). Sharing it would let a terminal operation
+		// on the copy close the reader under e, and the other way round: the copy
+		// opens its own reader on first use instead.
+		newExt.reader = nil
+		newExt.docxReader = nil
+		newExt.odtReader = nil
+		newExt.xlsxReader = nil
+		newExt.pptxReader = nil
+		newExt.htmlReader = nil
+		newExt.epubReader = nil
+		newExt.ownsReader = false
+		newExt.readerOpened = false
+	}
 	return newExt
 }
 
